@@ -34,6 +34,7 @@ THEOREMS = [
     "C13.addressed_end",
     "C13.constraints",
     "C13.constraints_untouched_without_type",
+    "C13.no_spurious_refusal",
     "C13.computed_raises",
     "C13.identity_unsupported_raises",
 ]
@@ -267,10 +268,17 @@ class Batch:
             if len(ctx.samples) < ctx.max_samples and requested and len(stmts) >= 1 and ctx.evaluations % 7 == 0:
                 ctx.sample({"input": inp, "script": r["text"], "statements": impl_view["stmts"], "error": r["err"]})
             if unknown:
+                # "dialects that cannot express a requested change raise instead of emitting something else":
+                # a statement outside the dialect's ALTER grammar is something else
+                ctx.fail(inp, "grammar: an emitted statement is not a statement of the dialect's alter-column grammar "
+                              "(neither the requested change nor an exception)",
+                         impl={"unparsed": unknown, "stmts": impl_view["stmts"], "err": r["err"], "script": r["text"][:1500]},
+                         tags=["grammar", dialect])
                 continue
             schema_reported = False
             address_reported = False
             constraints_reported = False
+            refusal_reported = False
             for init in inits:
                 s = next(ans)
                 if "err" in s:
@@ -289,6 +297,12 @@ class Batch:
                     ctx.fail(inp, "address: a statement refers to the column by a name it does not have at that point of the script",
                              impl={"misaddressed": misaddressed(req, stmts), "stmts": impl_view["stmts"], "script": r["text"][:1500]},
                              tags=["address", dialect])
+                if s.get("mustSucceed") and r["err"] is not None and not refusal_reported:
+                    refusal_reported = True
+                    ctx.fail(inp, "refusal: the request is expressible on the dialect (Spec.Alter.mustSucceed) but the call raised %s: %s"
+                             % (r["err"], r["msg"][:100]),
+                             impl={"stmts": impl_view["stmts"], "err": r["err"], "script": r["text"][:1500]},
+                             tags=["refusal", dialect])
                 if not s.get("constraints", True) and not constraints_reported:
                     constraints_reported = True
                     bad = [st for st in impl_view["stmts"] if st["k"] in ("dropConstraint", "addConstraint")]
@@ -419,7 +433,7 @@ def _verdict(ctx, dialect, req, init):
     r = ai.run_impl(dialect, req)
     stmts, unknown = ai.parse_script(dialect, r["text"])
     if unknown:
-        return None, r, stmts
+        return ("grammar", init, {"keep": None, "requested": None, "final": None}), r, stmts
     lreq = ai.to_lean(dialect, req)
     inits = [init] if init is not None else init_states(ctx.rng("shrink"), dialect, lreq)
     for i in inits:
@@ -432,6 +446,8 @@ def _verdict(ctx, dialect, req, init):
             return ("address", i, s), r, stmts
         if not s.get("constraints", True):
             return ("constraints", i, s), r, stmts
+        if s.get("mustSucceed") and r["err"] is not None:
+            return ("refusal", i, s), r, stmts
         if not s["exact"]:
             return ("exact" if s["plain"] else "exact-nonplain", i, s), r, stmts
     return None, r, stmts
